@@ -665,20 +665,50 @@ end Interp
 
 /-! ## The declared-dependency predicate (decidable over the description) -/
 
+/-- Values a selector node can evaluate to, as far as its kind alone tells: an unsigned
+IntReg of 1/2/4 bytes yields `0 … 2^(8 len) - 1`, a signed one of 1/2/4/8 bytes
+`-2^(8 len - 1) … 2^(8 len - 1) - 1`; anything else is unbounded (`none`). -/
+def selRange (g : Graph) (s : NodeId) : Option (Int × Int) :=
+  match g[s]? with
+  | some (.reg rs) =>
+    match rs.kind with
+    | .int _ .unsigned =>
+      if rs.len == 1 || rs.len == 2 || rs.len == 4 then some (0, 2 ^ (8 * rs.len) - 1) else none
+    | .int _ .signed =>
+      if validIntLen rs.len then some (-(2 ^ (8 * rs.len - 1)), 2 ^ (8 * rs.len - 1) - 1) else none
+    | _ => none
+  | _ => none
+
+/-- Address hull `[lo, hi)` of every byte a register can touch (no wrap-around): its fixed
+range, or for a selector-addressed register with a bounded selector the range spanned by the
+extreme selector values; `none` = anywhere. -/
+def hull (g : Graph) (r : Reg) : Option (Int × Int) :=
+  match r.sel with
+  | none => some (r.base, r.base + r.len)
+  | some (s, off) =>
+    match selRange g s with
+    | some (lo, hi) =>
+      some (r.base + min (lo * off) (hi * off), r.base + max (lo * off) (hi * off) + r.len)
+    | none => none
+
+def hullsMeet (h1 h2 : Option (Int × Int)) : Bool :=
+  match h1, h2 with
+  | some (a, b), some (c, d) => decide (a < d) && decide (c < b)
+  | _, _ => true
+
 /-- Can a write through register `w` change bytes under some cache key of register `t`
-without that key being the very key the write itself refreshes?  Static registers: their
-fixed ranges intersect.  A selector-addressed register may point anywhere.  The same
-register only clashes with itself when it is selector-addressed with a stride smaller than
-its length (or when address arithmetic may wrap, i.e. outside the `dev` profile). -/
-def mayOverlap (p : Profile) (w : NodeId) (rw : Reg) (t : NodeId) (rt : Reg) : Bool :=
+without that key being the very key the write itself refreshes?  Different registers: their
+address hulls intersect (for two constant-address registers: their ranges intersect).  The
+same register only clashes with itself when it is selector-addressed with a stride smaller
+than its length.  Outside the `dev` profile address arithmetic may wrap, so a
+selector-addressed register may then point anywhere. -/
+def mayOverlap (p : Profile) (g : Graph) (w : NodeId) (rw : Reg) (t : NodeId) (rt : Reg) : Bool :=
   if w = t then
     match rt.sel with
     | none => false
     | some (_, off) => decide (off.natAbs < rt.len) || !p.overflowChecks
-  else
-    match rw.sel, rt.sel with
-    | none, none => overlaps rw.base rw.len rt.base rt.len
-    | _, _ => true
+  else if (rw.sel.isSome || rt.sel.isSome) && !p.overflowChecks then true
+  else hullsMeet (hull g rw) (hull g rt)
 
 /-- one (writer, cached target) pair is declared: the target lists the writing register or
 the writer's port among its `pInvalidator`s (every write through `w` runs
@@ -686,7 +716,7 @@ the writer's port among its `pInvalidator`s (every write through `w` runs
 def pairDeclared (p : Profile) (g : Graph) (w t : NodeId) : Bool :=
   match g[w]?, g[t]? with
   | some (.reg rw), some (.reg rt) =>
-    rt.mode == .noCache || !mayOverlap p w rw t rt || rt.invs.contains w || rt.invs.contains rw.port
+    rt.mode == .noCache || !mayOverlap p g w rw t rt || rt.invs.contains w || rt.invs.contains rw.port
   | _, _ => true
 
 def declaredB (p : Profile) (g : Graph) : Bool :=
